@@ -202,6 +202,12 @@ Section NeverLonger.
     exists b', (i + len r - 1). pose proof (len_nonneg r). split; [exact E|lia].
   Qed.
 
+  Lemma step_ok_guard b i j r : 0 <= i -> i <= j -> j < len b -> len r <= j + 1 - i -> step_ok b i (guard_splice b i j r).
+  Proof.
+    intros Hi Hij Hj Hr. unfold guard_splice. destruct r as [|c r']; [apply step_ok_splice; assumption|].
+    destruct (cont_start c && look_behind (rev (firstz i b)) 1); [apply step_ok_same; lia|apply step_ok_splice; assumption].
+  Qed.
+
   Lemma ent_finish_ok b i j r :
     0 <= i -> i <= j -> len r <= j + 1 - i ->
     (forall c q, r = [c] -> lookup_byte rm c = Some q -> len q <= j + 1 - i) ->
@@ -210,13 +216,13 @@ Section NeverLonger.
     intros Hi Hij Hr Hq. unfold ent_finish.
     destruct ((j <? len b) && (getz b j =? 59) && (2 <? j + 1 - i)) eqn:C; [|apply step_ok_same; lia].
     assert (Hj : j < len b) by lia.
-    destruct r as [|c [|c2 r2]]; try (apply step_ok_splice; assumption).
+    destruct r as [|c [|c2 r2]]; try (apply step_ok_guard; assumption).
     destruct (lookup_byte rm c) as [q|] eqn:Eq.
     - destruct (list_eqb q (slice b i (j + 1))); [apply step_ok_same; lia|].
-      apply step_ok_splice; try assumption. exact (Hq c q eq_refl Eq).
-    - destruct (c =? 38); [|apply step_ok_splice; assumption].
+      apply step_ok_guard; try assumption. exact (Hq c q eq_refl Eq).
+    - destruct (c =? 38); [|apply step_ok_guard; assumption].
       destruct ((j + 1 <? len b) && (is_alnum (getz b (j + 1)) || (getz b (j + 1) =? 35)));
-        [apply step_ok_same; lia|apply step_ok_splice; assumption].
+        [apply step_ok_same; lia|apply step_ok_guard; assumption].
   Qed.
 
   Lemma min_ref_len_le6 c : min_ref_len c <= 6.
@@ -291,32 +297,3 @@ Example entities_never_longer_example :
     [38;35;120;51;99;59; 97; 38;113;117;111;116;59; 38;65;69;108;105;103;59; 38;35;120;56;48;59]
   = Ok [38;108;116;59; 97; 34; 38;35;49;57;56;59; 38;35;49;50;56;59].
 Proof. vm_compute. split; reflexivity. Qed.
-
-(* ---- idempotence and decoding: false on the current code ----------------------------------------- *)
-(* `&#x&#x41;;` -> `&#xA;` -> `\n` *)
-Lemma entities_idempotent_refuted_proof :
-  exists em rm b o1 o2, maps_ok em rm = true /\
-    replace_entities em rm b = Ok o1 /\ replace_entities em rm o1 = Ok o2 /\ o1 <> o2.
-Proof.
-  exists [], [], [38;35;120;38;35;120;52;49;59;59], [38;35;120;65;59], [10].
-  vm_compute. repeat split; try reflexivity. discriminate.
-Qed.
-
-(* `&am&#112;;` -> `&amp;` -> `&` with the HTML name amp *)
-Lemma entities_idempotent_refuted_named_proof :
-  exists b o1 o2, maps_ok demo_em demo_rm = true /\
-    replace_entities demo_em demo_rm b = Ok o1 /\ replace_entities demo_em demo_rm o1 = Ok o2 /\ o1 <> o2.
-Proof.
-  exists [38;97;109;38;35;49;49;50;59;59], [38;97;109;112;59], [38].
-  vm_compute. repeat split; try reflexivity. discriminate.
-Qed.
-
-(* `&#x&#x41;;` decodes to `&#xA;` (the text), its replacement `&#xA;` decodes to a line feed *)
-Lemma entities_preserve_decoding_refuted_proof :
-  exists em rm b o, maps_ok em rm = true /\ ~ In 0 (html_decode b) /\
-    replace_entities em rm b = Ok o /\ html_decode o <> html_decode b.
-Proof.
-  exists [], [], [38;35;120;38;35;120;52;49;59;59], [38;35;120;65;59].
-  vm_compute. repeat split; try reflexivity; try discriminate.
-  intros H. repeat (destruct H as [H|H]; [discriminate|]). exact H.
-Qed.
